@@ -10,11 +10,13 @@ package c03
 
 import (
 	"bytes"
+	"encoding/binary"
 	"fmt"
 	"net"
 	"strings"
 	"time"
 
+	"github.com/codelaboratoryltd/bng/pkg/ebpf"
 	"github.com/insomniacslk/dhcp/dhcpv4"
 
 	"verif/harness/dhcpdrv"
@@ -36,6 +38,8 @@ func bscenarios(thorough bool) []bscen {
 		{"release(m1)|sweep, lease lapsed", true, []string{"D:m1", "R:m1"}, []string{"L:m1", "sweep"}},
 		{"release(m1)|renew(m1)", false, []string{"D:m1", "R:m1"}, []string{"L:m1", "Rn:m1"}},
 		{"decline(m1)|renew(m1)", false, []string{"D:m1", "R:m1"}, []string{"X:m1", "Rn:m1"}},
+		// a renewal overtaken by the client starting over: release, new DISCOVER + REQUEST (which gets another address)
+		{"renew(m1)|release,discover,request(m1)", false, []string{"D:m1", "R:m1"}, []string{"Rn:m1", "L:m1,D:m1,Rq:m1"}},
 	}
 	if thorough {
 		s = append(s,
@@ -63,7 +67,7 @@ func (e *env) bscenario(sc bscen) *sched.Scenario {
 				cfg.lease = -time.Second // time is real in this part: leases handed out by the prefix are born expired
 			}
 			d := dhcpdrv.NewV4(dhcpdrv.V4Config{Network: cfg.network, Gateway: cfg.gateway, ServerIP: cfg.serverIP, Lease: cfg.lease, Loader: l, DNS: cfg.dns})
-			w := &world{d: d, offered: map[string]net.IP{}, leased: map[string]net.IP{}, ended: map[string]bool{}}
+			w := &world{d: d, offered: map[string]net.IP{}, leased: map[string]net.IP{}, ended: map[string]bool{}, byE: map[string]bool{}}
 			l.SetServerConfig(srvMAC, w.d.ServerIP(), 2)
 			for _, op := range sc.pre {
 				w.apply(cfg, op)
@@ -78,28 +82,38 @@ func (e *env) bscenario(sc bscen) *sched.Scenario {
 						x.Obs("T%d:sweep", ti)
 						return
 					}
-					kind, name, _ := strings.Cut(op, ":")
-					var c client
-					for _, q := range clients {
-						if q.name == name {
-							c = q
+					var offer net.IP
+					for _, one := range strings.Split(op, ",") {
+						kind, name, _ := strings.Cut(one, ":")
+						var c client
+						for _, q := range clients {
+							if q.name == name {
+								c = q
+							}
 						}
+						m := dhcpdrv.Msg{CHAddr: c.mac, GIAddr: c.giaddr, CircuitID: c.circuit}
+						own := w.leased[name]
+						switch kind {
+						case "Rn":
+							m.Type, m.CIAddr = dhcpv4.MessageTypeRequest, own
+						case "L":
+							m.Type, m.CIAddr, m.ServerID = dhcpv4.MessageTypeRelease, own, d.ServerIP()
+						case "X":
+							m.Type, m.ReqIP, m.ServerID = dhcpv4.MessageTypeDecline, own, d.ServerIP()
+						case "D":
+							m.Type = dhcpv4.MessageTypeDiscover
+						case "Rq": // selecting REQUEST for the address this thread was just offered
+							m.Type, m.ReqIP, m.ServerID = dhcpv4.MessageTypeRequest, offer, d.ServerIP()
+						}
+						var o []string
+						for _, r := range d.Send(m) {
+							o = append(o, r.String())
+							if r.Type == dhcpv4.MessageTypeOffer {
+								offer = r.YIAddr
+							}
+						}
+						x.Obs("T%d:%s=%s", ti, one, strings.Join(o, ","))
 					}
-					m := dhcpdrv.Msg{CHAddr: c.mac, GIAddr: c.giaddr, CircuitID: c.circuit}
-					own := w.leased[name]
-					switch kind {
-					case "Rn":
-						m.Type, m.CIAddr = dhcpv4.MessageTypeRequest, own
-					case "L":
-						m.Type, m.CIAddr, m.ServerID = dhcpv4.MessageTypeRelease, own, d.ServerIP()
-					case "X":
-						m.Type, m.ReqIP, m.ServerID = dhcpv4.MessageTypeDecline, own, d.ServerIP()
-					}
-					var o []string
-					for _, r := range d.Send(m) {
-						o = append(o, r.String())
-					}
-					x.Obs("T%d:%s=%s", ti, op, strings.Join(o, ","))
 				})
 			}
 		},
@@ -109,6 +123,15 @@ func (e *env) bscenario(sc bscen) *sched.Scenario {
 			holds := map[string]bool{}
 			for _, ls := range w.d.Leases() {
 				holds[ls.MAC.String()] = true
+				// the MAC-keyed cache entry, if any, must carry the address of the lease the server holds NOW
+				key := make([]byte, 8)
+				binary.LittleEndian.PutUint64(key, ebpf.MACToUint64(ls.MAC))
+				if raw, err := e.k.Coll.Maps["subscriber_pools"].LookupBytes(key); err == nil && len(raw) >= 8 {
+					if got, want := binary.LittleEndian.Uint32(raw[4:8]), ebpf.IPToUint32(ls.IP); got != want {
+						vs = append(vs, sched.Viol{Kind: "cache-entry-differs-from-lease", Site: "subscriber_pools",
+							Detail: fmt.Sprintf("the server's lease for %s is %s, the fast path entry for that MAC carries allocated_ip %#08x (the control plane writes %#08x for %s)", ls.MAC, ls.IP, got, want, ls.IP)})
+					}
+				}
 			}
 			for _, c := range clients[:2] {
 				for _, pn := range []string{"DISCOVER", "REQUEST-renew-ciaddr"} {
